@@ -14,7 +14,7 @@ use sv_parser_parser::{Span, SpanInfo};
 #[derive(Clone, Copy, Debug, PartialEq, Eq, PartialOrd, Ord, Hash)]
 pub struct Call(pub usize);
 
-pub const CALLS: [(&str, &str); 27] = [
+pub const CALLS: [(&str, &str); 30] = [
     ("parse_sv_str ok", "module a; wire w; endmodule\n"),
     ("parse_sv_str broken", "module a; wire ; endmodule\n"),
     ("parse_sv_str incomplete", "module a; endmodule\n)"),
@@ -42,6 +42,9 @@ pub const CALLS: [(&str, &str); 27] = [
     ("probe: preprocess_str of `ifdef on a word that only later standards reserve", "`ifdef priority\nx\n`endif\n`ifndef logic\ny\n`endif\n"),
     ("probe: parse_sv_str of `undef on a word that only later standards reserve", "`undef final\nmodule p; endmodule\n"),
     ("preprocess_str leaves two begin_keywords regions open", "`begin_keywords \"1364-2001\"\n`begin_keywords \"1364-1995\"\nmodule a; endmodule\n"),
+    ("preprocess_str: `include of a header found through include path A", "x\n`include \"c07_common.svh\"\ny `WIDTH\n"),
+    ("preprocess_str: `include of the same name found through include path B", "x\n`include \"c07_common.svh\"\ny `WIDTH\n"),
+    ("parse_sv_str: `include of the same name through path B, then an undefined macro", "`include \"c07_common.svh\"\nmodule q; wire [`WIDTH:0] w = `NOPE; endmodule\n"),
 ];
 
 thread_local! {
@@ -111,7 +114,18 @@ pub fn exec(c: Call) -> String {
             Ok(Ok((pt, dd))) => format!("OK {:?} {:?} {:?}", pt.text(), origins_sig(&pt), defs_sig(&dd, true, false)),
         }
     };
+    let inc = |w: &str| vec![crate::core::run::verif_dir().join(".work").join("C07").join(format!("inc_{}", w))];
     match c.0 {
+        27 | 28 => match api::pp_str(text, path, &d, &inc(if c.0 == 27 { "a" } else { "b" }), false, false) {
+            Err(p) => format!("PANIC {}", p),
+            Ok(Err(e)) => format!("ERR {}", err_sig(&e)),
+            Ok(Ok((pt, dd))) => format!("OK {:?} {:?} {:?}", pt.text(), origins_sig(&pt), defs_sig(&dd, true, false)),
+        },
+        29 => match api::parse_sv_str(text, path, &d, &inc("b"), false, false) {
+            Err(p) => format!("PANIC {}", p),
+            Ok(Err(e)) => format!("ERR {}", err_sig(&e)),
+            Ok(Ok((t, dd))) => format!("OK {} {:?}", tree::skeleton_full(&t), defs_sig(&dd, true, false)),
+        },
         2 => parse(false, true, text),
         3 | 4 => parse(true, false, text),
         5 | 9 | 24 | 26 => pp(text),
@@ -144,7 +158,7 @@ fn fingerprint() -> (usize, usize, Vec<u8>) {
 
 pub fn build(tier: Tier) -> Check<'static> {
     let mut c = Check::new("C07", tier, "6/C07");
-    c.rule = "alphabet of 27 calls (accepted / rejected / incomplete SystemVerilog and library parses, recursion-limit and self-include failures, sources leaving one, two and three nested `begin_keywords regions open (parser and preprocessor entry points), one starting with `resetall, a pp syntax error after a `define, five probes whose verdict flips if keyword or directive state leaks (in the parser and in the preprocessor grammar), the three raw parser entry points on ONE reused buffer, and preprocess_str / parse_sv_str fed from ONE reused String, rejected and accepted); (a) every sequence of length <= 3 (quick) / 4 (thorough) on a fresh OS thread, the last call's complete result compared with the same call on a fresh thread; (b) breadth-first search over the hooked thread state (memo occupancy, directive depth, keyword-version stack) reached by such sequences, every call checked from every reachable state; non-trivial = sequences of length >= 2, distinct by construction".into();
+    c.rule = "alphabet of 30 calls (accepted / rejected / incomplete SystemVerilog and library parses, recursion-limit and self-include failures, one include name resolved through two different include paths, sources leaving one, two and three nested `begin_keywords regions open (parser and preprocessor entry points), one starting with `resetall, a pp syntax error after a `define, five probes whose verdict flips if keyword or directive state leaks (in the parser and in the preprocessor grammar), the three raw parser entry points on ONE reused buffer, and preprocess_str / parse_sv_str fed from ONE reused String, rejected and accepted); (a) every sequence of length <= 3 (quick) / 4 (thorough) on a fresh OS thread, the last call's complete result compared with the same call on a fresh thread; (b) breadth-first search over the hooked thread state (memo occupancy, directive depth, keyword-version stack) reached by such sequences, every call checked from every reachable state; non-trivial = sequences of length >= 2, distinct by construction".into();
     c.assumptions = vec![
         "a call's result is rendered without addresses: output text, origin of every byte, define table with origins, tree skeleton with positions, error variant and payload".into(),
         "state merging in (b): memo occupancy is reduced to empty / non-empty and stacks are cut at depth 3; part (a) does not merge anything".into(),
@@ -154,6 +168,11 @@ pub fn build(tier: Tier) -> Check<'static> {
     let _ = std::fs::create_dir_all(&d);
     let sf = self_file();
     std::fs::write(&sf, format!("x\n`include \"{}\"\n", sf.to_string_lossy())).expect("write self.svh");
+    for (w, width) in [("a", "8"), ("b", "32")] {
+        let dd = d.join(format!("inc_{}", w));
+        let _ = std::fs::create_dir_all(&dd);
+        std::fs::write(dd.join("c07_common.svh"), format!("`define WIDTH {}\nfrom_{}\n", width, w)).expect("write include");
+    }
     // reference results: each call on its own fresh thread
     let refs: Arc<Vec<String>> = Arc::new((0..CALLS.len()).map(|k| on_fresh_thread(move || exec(Call(k)))).collect());
     {
